@@ -56,6 +56,10 @@ func c16(c *Ctx) {
 			case k == 2:
 				if p, err := types.HHmmFromString(fmt.Sprintf("%02d:%02d", h, m)); err == nil && p != nil {
 					v = *p
+					*p = types.NewHHmm((h+5)%24, (m+31)%60) // the parsed value is the application's to change: later parses of the same text are not affected
+					if q, err := types.HHmmFromString(fmt.Sprintf("%02d:%02d", h, m)); err == nil && q != nil {
+						v = *q
+					}
 				}
 			case k == 3:
 				var j types.HHmm
